@@ -188,6 +188,35 @@ def adjustCrossOrigin (area : Area) (f : Feat) (regionCrosses : Bool) (L : Int) 
       let extra := { area with nstart := 0 }
       some ({ area with start := L, «end» := L, product := "", nend := L }, some extra)
 
+/-! ### Area.to_minimal_json -/
+
+/-- a JSON value as far as areas need them -/
+inductive JVal where
+  | int (i : Int)
+  | str (s : String)
+deriving DecidableEq, Repr, Inhabited
+
+/-- `feature.FEATURE_TYPE` (`"candidatecluster"` is set by `from_feature`) -/
+def kindName : Kind → String
+  | .proto => "protocluster" | .cand => "candidatecluster" | .sub => "subregion"
+
+/-- `dataclasses.asdict(self)`: the fields in declaration order -/
+def Area.asdict (a : Area) : List (String × JVal) :=
+  [("start", .int a.start), ("end", .int a.end), ("kind", .str (kindName a.kind)), ("height", .int a.height),
+   ("neighbouring_start", .int a.nstart), ("neighbouring_end", .int a.nend), ("product", .str a.product),
+   ("prefix", .str a.prefix), ("category", .str a.category), ("tool", .str a.tool), ("group", .int a.group)]
+
+/-- `base.pop(key)` -/
+def popKey (k : String) (l : List (String × JVal)) : List (String × JVal) := l.filter (·.1 != k)
+
+/-- `Area.to_minimal_json`: empty strings are dropped (`val != ""`, so a height of 0 stays), then
+    the neighbouring coordinates that equal the core's and a zero group -/
+def Area.toMinimalJson (a : Area) : List (String × JVal) :=
+  let base := a.asdict.filter fun kv => kv.2 != JVal.str ""
+  let base := if a.nstart == a.start then popKey "neighbouring_start" base else base
+  let base := if a.nend == a.end then popKey "neighbouring_end" base else base
+  if a.group == 0 then popKey "group" base else base
+
 /-! ### build_area_rows -/
 
 /-- the region-level inputs of `build_area_rows` / `convert_regions` -/
